@@ -30,6 +30,8 @@ def cases(tier):
         out.append(("rect", r))
     for r in range(60 if tier == "quick" else 10000):
         out.append(("chdim", r))
+    for r in range(60 if tier == "quick" else 10000):
+        out.append(("spectrum", r))
     return out
 
 
@@ -156,6 +158,54 @@ def _run_map(ctx, spec, rng):
         if nat is not FAILED:
             ctx.check("O6:natural_representation", None, dev=_rel(np.asarray(nat) @ x.reshape(-1), want.reshape(-1)), tol=1e-9, sig=(din, dout, cplx), nt=nt,
                       mech="natural_representation:row-major-vec", detail={"din": din, "dout": dout, "r": r})
+
+
+def _run_spectrum(ctx, spec, rng):
+    """choi_to_kraus on Hermitian Choi matrices with a DESIGNED spectrum: clearly non-zero eigenvalues of both signs together with eigenvalues of
+    either sign well below the documented cut-off tol = 1e-9 (legitimately dropped; their total weight bounds the admissible error), exact zeros and
+    degenerate eigenvalues.  The returned pairs must reproduce the map and rebuild J up to that dropped weight."""
+    from toqito.channel_ops import choi_to_kraus, kraus_to_choi
+
+    r = spec[1]
+    din, dout = int(rng.integers(1, 4)), int(rng.integers(2, 4))
+    n = din * dout
+    cplx = bool(r % 2)
+    kind = ["psd", "indefinite", "indefinite-degenerate"][r % 3]
+    big = list(rng.uniform(0.3, 2.0, size=int(rng.integers(1, max(2, n - 1)))))
+    if kind != "psd":
+        big[0] = -big[0]
+    if kind == "indefinite-degenerate" and len(big) >= 2:
+        big[-1] = abs(big[-2]) if len(big) > 2 else big[-1]
+    tiny = [float(s_) * float(10.0 ** rng.uniform(-13, -10)) for s_ in rng.choice([-1.0, 1.0], size=int(rng.integers(0, 3)))]
+    if kind == "psd":
+        tiny = [abs(t_) for t_ in tiny]
+    spec_ = (big + tiny + [0.0] * n)[:n]
+    spec_ = [spec_[int(i_)] for i_ in rng.permutation(n)]
+    u = gen.haar(rng, n, real=not cplx)
+    j = ref.herm(u @ np.diag(spec_) @ u.conj().T)
+    if not cplx:
+        j = j.real
+    dropped = float(sum(abs(s_) for s_ in spec_ if abs(s_) < 1e-9))
+    x = gen.rc(rng, din, din)
+    want = ref.apply_choi(x, j, din, dout)
+    k_lib = ctx.call(choi_to_kraus, j.copy(), dim=[din, dout])
+    if k_lib is FAILED:
+        return
+    if len(k_lib) and isinstance(k_lib[0], (list, tuple)):
+        ka, kb = [p_[0] for p_ in k_lib], [p_[1] for p_ in k_lib]
+    else:
+        ka = kb = list(k_lib)
+    got = ref.apply_kraus(x, ka, kb) if ka else np.zeros_like(want)
+    j_back = ref.choi_of(ka, kb, din) if ka else np.zeros_like(j)
+    tol = 1e-6 + 10 * dropped
+    sig = (kind, cplx, len(tiny), din, dout)
+    det = {"din": din, "dout": dout, "kind": kind, "spectrum": spec_, "weight_below_cutoff": dropped, "pairs_returned": len(ka)}
+    ctx.check("O3:choi_to_kraus-action", None, dev=_rel(got, want), tol=tol, sig=sig, nt=True, mech="choi_to_kraus:action[designed-spectrum]", detail=det)
+    ctx.check("O3:choi_to_kraus-rebuilds", None, dev=_rel(j_back, j), tol=tol, sig=sig, nt=True, mech="choi_to_kraus:rebuild[designed-spectrum]", detail=det)
+    if ka:
+        j1 = ctx.call(kraus_to_choi, k_lib)
+        if j1 is not FAILED:
+            ctx.check("O4:chain", None, dev=_rel(j1, j), tol=tol, sig=sig + ("spectrum",), nt=True, mech="chain:J'!=J[designed-spectrum]", detail=det)
 
 
 def _run_partial(ctx, spec, rng):
